@@ -15,6 +15,8 @@ pub fn interval_at<S>(
   scheduler: S,
 ) -> IntervalObservable<S> {
   let now = Instant::now();
+  #[cfg(feature = "verif_hooks")]
+  let now = crate::verif_hooks::now().unwrap_or(now);
   let delay = if at > now {
     at - now
   } else {
